@@ -31,7 +31,7 @@ import time
 
 import numpy as np
 
-from common import REPO, Driver, tok, untok
+from common import REPO, Driver, grid_tok, tok, untok, untok_exact
 
 PROP = "C05"
 PI = math.pi
@@ -369,21 +369,23 @@ def status_node(row, col, e0, e1, e2, ang0, vr, vc, velev, ew, ns, initial):
 
 
 def sweep_ops(raster, vr, vc, velev, vtarget, ew, ns):
-    """the operation list of the sweep: ('ins', node) ('del', key) ('qry', key, ang, grad, row, col, elev)"""
+    """the operation list of the sweep: ('ins', node, row, col, initial) ('del', key, row, col)
+    ('qry', key, ang, grad, row, col, elev)"""
     v = V()
     ev, data, vis = events(raster, vr, vc)
     ops = []
     n_rows, n_cols = raster.shape
     for i in range(vc + 1, n_cols):
         if not np.isnan(data[1][i]):
-            ops.append(("ins", status_node(vr, i, data[0][i], data[1][i], data[2][i], None, vr, vc, velev, ew, ns, True)))
+            ops.append(("ins", status_node(vr, i, data[0][i], data[1][i], data[2][i], None, vr, vc, velev, ew, ns, True),
+                        vr, i, True))
     for e in ev:
         row, col, typ = int(e[0]), int(e[1]), int(e[2])
         key, g1 = v._calc_dist_n_grad(row, col, e[5] + vtarget, vr, vc, velev, ew, ns)
         if typ == 1:
-            ops.append(("ins", status_node(row, col, e[4], e[5], e[6], e[3], vr, vc, velev, ew, ns, False)))
+            ops.append(("ins", status_node(row, col, e[4], e[5], e[6], e[3], vr, vc, velev, ew, ns, False), row, col, False))
         elif typ == -1:
-            ops.append(("del", float(key)))
+            ops.append(("del", float(key), row, col))
         else:
             ops.append(("qry", float(key), float(e[3]), float(g1), row, col, float(e[5] + vtarget)))
     return ops, ev, data
@@ -464,10 +466,127 @@ def ops_tok(ops):
     return ";".join(parts)
 
 
+# ---------------------------------------------------------------- seam 0: the event geometry, exactly
+def instrumented_sweep(raster, vr, vc, velev, vt, ew, ns, ev, data):
+    """the INTERPRETED source of `_viewshed_cpu_sweep` (`.py_func`) with the three status-structure entry points
+    wrapped: returns the sequence of operations the real sweep performs (initial fill included) and its output"""
+    v = V()
+    rec = []
+    orig = (v._insert_into_tree, v._delete_from_tree, v._max_grad_in_status_struct)
+
+    def w_ins(tv, tn, root, nid, val):
+        rec.append(("ins", np.array(val[:7], dtype=np.float64)))
+        return orig[0](tv, tn, root, nid, val)
+
+    def w_del(tv, tn, root, key):
+        rec.append(("del", float(key)))
+        return orig[1](tv, tn, root, key)
+
+    def w_qry(tv, tn, root, key, ang, grad):
+        rec.append(("qry", float(key), float(ang), float(grad)))
+        return orig[2](tv, tn, root, key, ang, grad)
+    v._insert_into_tree, v._delete_from_tree, v._max_grad_in_status_struct = w_ins, w_del, w_qry
+    try:
+        vis = np.full(raster.shape, -1.0)
+        vis[vr, vc] = 180
+        rcts = np.array(ev[:, :3], dtype=np.int64)
+        aes = np.array(ev[:, 3:], dtype=np.float64)
+        out = v._viewshed_cpu_sweep.py_func(raster, vr, vc, float(velev), float(vt), float(ew), float(ns), rcts, aes,
+                                            data.copy(), vis)
+    finally:
+        v._insert_into_tree, v._delete_from_tree, v._max_grad_in_status_struct = orig
+    return rec, out
+
+
+def events_request(a64, vr, vc, ew, ns):
+    from fractions import Fraction
+    return f"vs_events grid={grid_tok(a64)} vr={vr} vc={vc} ew={tok(Fraction(ew))} ns={tok(Fraction(ns))}"
+
+
+def compare_events(c, ops, ev, data, rep, rec=None):
+    """the exact event data of Model/ViewshedEvents.lean (driver reply `rep`) against the real `_init_event_list` output
+    `ev` (sorted as `_viewshed_cpu` sorts it), `data`, the real keys and positions, the operation list `ops` of the
+    harness's transliteration, and (if given) the operations `rec` recorded from the real interpreted sweep.
+    Returns a list of differences (strings)."""
+    from fractions import Fraction
+    v = V()
+    a, xs, ys, ew, ns, velev, vt = terrain_setup(c)
+    vr, vc = c["vr"], c["vc"]
+    if rep.startswith(("err", "bad")):
+        return ["driver: " + rep[:200]]
+    f = dict(p.split("=", 1) for p in rep.split(" ") if "=" in p)
+    out = []
+    mev = [t.split(":") for t in f.get("ev", "").split(";") if t]
+    if len(mev) != len(ev):
+        return [f"{len(ev)} real events, {len(mev)} model events"]
+    for k, (m, e) in enumerate(zip(mev, ev)):
+        row, col, ty, y2, x2 = (int(t) for t in m[:5])
+        if (row, col, ty) != (int(e[0]), int(e[1]), int(e[2])):
+            out.append(f"sorted position {k}: real event {(int(e[0]), int(e[1]), int(e[2]))}, model {(row, col, ty)}")
+            break
+        ry, rx = v._calc_event_pos(ty, row, col, vr, vc)
+        if (Fraction(float(ry)) * 2, Fraction(float(rx)) * 2) != (y2, x2):
+            out.append(f"event {(row, col, ty)}: real position {(float(ry), float(rx))}, model {(y2 / 2, x2 / 2)}")
+            break
+        want = tuple(untok_exact(t) for t in m[5:8])
+        got = tuple(Fraction(float(x)) for x in e[4:7])
+        if want != got:
+            out.append(f"event {(row, col, ty)}: real elevations {tuple(float(x) for x in e[4:7])}, model "
+                       f"{tuple(float(x) for x in want)} (exact rationals differ)")
+            break
+    # bearings: consecutive real events must have non-decreasing bearings, and equal bearings exactly when the model's
+    # cross product vanishes (same half plane) -- the sequence equality above already pins the order; here the values
+    mdata = [tuple(untok_exact(x) for x in t.split(":")) for t in f.get("data", "").split(";") if t]
+    rdata = [tuple(Fraction(float(data[k][j])) for k in range(3)) for j in range(data.shape[1])]
+    if mdata != rdata:
+        j = next((j for j in range(min(len(mdata), len(rdata))) if mdata[j] != rdata[j]), -1)
+        out.append(f"observer-row buffer `data`, column {j}: real {tuple(float(data[k][j]) for k in range(3)) if j >= 0 else len(rdata)}"
+                   f", model {tuple(float(x) for x in mdata[j]) if j >= 0 else len(mdata)}")
+    from common import parse_grid
+    mkeys = parse_grid(f["keys"], untok_exact)
+    for i in range(a.shape[0]):
+        for j in range(a.shape[1]):
+            rk = float(v._calc_dist_n_grad(i, j, 0.0, vr, vc, 0.0, ew, ns)[0])
+            if Fraction(rk) != mkeys[i][j]:
+                out.append(f"key of cell {(i, j)}: real {rk}, model {float(mkeys[i][j])}")
+                break
+        else:
+            continue
+        break
+    mops = [t for t in f.get("ops", "").split(";") if t]
+    hops = []
+    for op in ops:
+        if op[0] == "ins":
+            hops.append(("*" if op[4] else "+") + f"{op[2]}:{op[3]}")
+        elif op[0] == "del":
+            hops.append(f"-{op[2]}:{op[3]}")
+        else:
+            hops.append(f"?{op[4]}:{op[5]}")
+    if mops != hops:
+        k = next((k for k in range(min(len(mops), len(hops))) if mops[k] != hops[k]), min(len(mops), len(hops)))
+        out.append(f"operation {k} of the sweep: real {hops[k] if k < len(hops) else None}, model {mops[k] if k < len(mops) else None}"
+                   f" ({len(hops)} / {len(mops)} operations)")
+    if f.get("replay") != "1":
+        out.append("the model's operation list violates the active-set discipline")
+    if rec is not None:
+        if len(rec) != len(ops):
+            out.append(f"the real sweep performs {len(rec)} status-structure operations, the transliteration {len(ops)}")
+        else:
+            for k, (x, y) in enumerate(zip(rec, ops)):
+                same = x[0] == y[0] and (np.array_equal(x[1], np.asarray(y[1])[:7]) if x[0] == "ins" else
+                                          x[1] == y[1] if x[0] == "del" else x[1:4] == tuple(y[1:4]))
+                if not same:
+                    out.append(f"operation {k}: the real sweep does {x[0]} {np.asarray(x[1]).tolist() if x[0] == 'ins' else x[1:]}, "
+                               f"the transliteration {y[0]} {np.asarray(y[1]).tolist() if y[0] == 'ins' else y[1:4]}")
+                    break
+    return out
+
+
 # ---------------------------------------------------------------- terrains
 def gen_terrain(rng, maxs):
     h, w = rng.randrange(2, maxs + 1), rng.randrange(2, maxs + 1)
-    kind = rng.choice(["alphabet", "alphabet", "bumps", "plateau", "dyadic", "int", "flat"])
+    kind = rng.choice(["alphabet", "alphabet", "bumps", "plateau", "dyadic", "int", "flat", "rowrelief", "rowrelief"])
+    vr, vc = rng.randrange(h), rng.randrange(w)
     if kind == "alphabet":
         k = rng.choice([2, 3, 4])
         a = [[float(rng.randrange(k)) for _ in range(w)] for _ in range(h)]
@@ -489,16 +608,43 @@ def gen_terrain(rng, maxs):
         a = [[rng.randrange(0, 64) / 8 for _ in range(w)] for _ in range(h)]
     elif kind == "int":
         a = [[float(rng.randrange(-20, 100)) for _ in range(w)] for _ in range(h)]
+    elif kind == "rowrelief":
+        # relief next to one of the four axis rays of the observer (its row or column): a low, nearly flat terrain
+        # with a few tall cells in the lines adjacent to that ray, so that the corner elevations of the cells ON the ray
+        # differ from their centre elevations and decide what is seen in the narrow wedges beside the ray
+        w = max(w, rng.randrange(4, maxs + 2))
+        h = max(h, rng.choice([2, 3, 3, 4]))
+        vr, vc = rng.randrange(h), rng.randrange(w)
+        ray = rng.choice(["E", "E", "W", "N", "S"])
+        if ray == "E":
+            vc = rng.randrange(0, max(1, w // 2))
+        elif ray == "W":
+            vc = rng.randrange(w // 2, w)
+        lowk = rng.choice([1, 1, 2])
+        a = [[float(rng.randrange(lowk)) for _ in range(w)] for _ in range(h)]
+        tall = rng.choice([3.0, 6.0, 12.0, 2.5])
+        for _ in range(rng.randrange(1, 4)):
+            if ray in "EW":
+                rr = vr + rng.choice([-1, 1])
+                cc = rng.randrange(vc, w) if ray == "E" else rng.randrange(0, vc + 1)
+            else:
+                cc = vc + rng.choice([-1, 1])
+                rr = rng.randrange(0, vr + 1) if ray == "N" else rng.randrange(vr, h)
+            if 0 <= rr < h and 0 <= cc < w and (rr, cc) != (vr, vc):
+                a[rr][cc] = tall + rng.choice([0.0, 0.0, 1.0])
     else:
         a = [[float(rng.choice([0, 3]))] * w for _ in range(h)]
         a = [[a[0][0]] * w for _ in range(h)]
     dtype = rng.choice(["float64", "float64", "float32", "int32", "int64"])
-    if kind == "dyadic" and dtype.startswith("int"):
+    if kind in ("dyadic", "rowrelief") and dtype.startswith("int"):
         dtype = "float64"
     if kind == "bumps" and dtype.startswith("int"):
         a = [[float(int(x)) for x in row] for row in a]
-    return dict(kind=kind, dtype=dtype, a=a, vr=rng.randrange(h), vc=rng.randrange(w),
-                oe=rng.choice([0, 0, 1, -1, 5]), te=rng.choice([0, 0, 2, 1, 0.5]),
+    oe = rng.choice([0, 0, 1, -1, 5])
+    if kind == "rowrelief":
+        oe = rng.choice([0, 1, 1, 0.5, 2])
+    return dict(kind=kind, dtype=dtype, a=a, vr=vr, vc=vc,
+                oe=oe, te=rng.choice([0, 0, 2, 1, 0.5]),
                 dx=rng.choice([1.0, 1.0, 2.0, 0.5]), dy=rng.choice([1.0, 1.0, 0.5, 2.0]),
                 x0=rng.choice([0.0, 10.0, -3.0]), y0=rng.choice([0.0, 5.0]),
                 off=rng.choice([0.0, 0.0, 0.25, -0.25]))
@@ -588,6 +734,171 @@ def bearing(y, x, vr, vc):
     return t + 2 * PI if t < 0 else t
 
 
+# ---------------------------------------------------------------- L0: the line-of-sight model from geometry alone
+# Written from the property statement; uses nothing of xrspatial.  Per cell: the entering / exiting corner is the
+# corner of smallest / largest bearing (exact integer cross products on doubled index coordinates, y up); a corner's
+# elevation is the mean of the four cells meeting there (the cell's own elevation at the raster border); the gradient of
+# a point is atan(height above the observer's eye / horizontal map distance); between corner, centre and corner the
+# gradient is linear in the bearing.  A target is visible iff no cell with a smaller squared map distance whose span
+# contains the target's bearing has a greater interpolated gradient there than the target's own (with target_elev).
+# EVERY cell is evaluated against EVERY other cell (O(n^2)); there is no sweep, no event order and no initial fill.
+GEO_TOL = 1e-9      # gradients closer than this are "tied": the verdict then depends on float rounding -> not compared
+_GEO_CACHE = {}
+
+
+class GeoModel:
+    """everything that does not depend on the elevations, for one (h, w, vr, vc, ew, ns)"""
+
+    def __init__(self, h, w, vr, vc, ew, ns):
+        from fractions import Fraction
+        self.h, self.w, self.vr, self.vc, self.ew, self.ns = h, w, vr, vc, ew, ns
+        cells = [(r_, c_) for r_ in range(h) for c_ in range(w) if (r_, c_) != (vr, vc)]
+        n = len(cells)
+        self.cells = cells
+        self.n = n
+        self.index = {rc: i for i, rc in enumerate(cells)}
+        self.rows = np.array([rc[0] for rc in cells], dtype=np.int64)
+        self.cols = np.array([rc[1] for rc in cells], dtype=np.int64)
+        # doubled coordinates relative to the observer, x to the east, y to the north
+        cx = 2 * (self.cols - vc)
+        cy = -2 * (self.rows - vr)
+        ent = np.zeros((n, 2), dtype=np.int64)      # (x, y) doubled, relative
+        ext = np.zeros((n, 2), dtype=np.int64)
+        self.ent_yx = np.zeros((n, 2))              # absolute index coordinates (y, x) of the corner
+        self.ext_yx = np.zeros((n, 2))
+        self.ent_nb = np.full((n, 4), -1, dtype=np.int64)   # flat indices (r*w+c) of the four cells at the corner; -1: border
+        self.ext_nb = np.full((n, 4), -1, dtype=np.int64)
+        for i, (r_, c_) in enumerate(cells):
+            for which, store, yx, nb in ((1, ent, self.ent_yx, self.ent_nb), (-1, ext, self.ext_yx, self.ext_nb)):
+                y, x = corner_of(r_, c_, vr, vc, which)
+                yx[i] = (y, x)
+                store[i] = (int(round(2 * (x - vc))), int(round(-2 * (y - vr))))
+                rr = (int(math.floor(y)), int(math.ceil(y)))
+                cc = (int(math.floor(x)), int(math.ceil(x)))
+                four = [(a_, b_) for a_ in rr for b_ in cc]
+                if all(0 <= a_ < h and 0 <= b_ < w for a_, b_ in four):
+                    nb[i] = [a_ * w + b_ for a_, b_ in four]
+        fe, fn = Fraction(ew), Fraction(ns)
+        keys = [(Fraction(int(c_ - vc)) * fe) ** 2 + (Fraction(int(r_ - vr)) * fn) ** 2 for r_, c_ in cells]
+        self.keys = np.array([float(k) for k in keys])
+        rank = {k: j for j, k in enumerate(sorted(set(keys)))}
+        kr = np.array([rank[k] for k in keys], dtype=np.int64)          # exact order of the squared distances
+        self.dist_c = np.sqrt(self.keys)
+        self.dist_e = np.hypot((self.ent_yx[:, 1] - vc) * ew, (self.ent_yx[:, 0] - vr) * ns)
+        self.dist_x = np.hypot((self.ext_yx[:, 1] - vc) * ew, (self.ext_yx[:, 0] - vr) * ns)
+        # bearings (index space): the centre's, and the corners' relative to the centre (signed, exact sign)
+        self.a1 = np.mod(np.arctan2(cy, cx), 2 * PI)
+        self.dlo = np.arctan2(cx * ent[:, 1] - cy * ent[:, 0], cx * ent[:, 0] + cy * ent[:, 1])   # < 0
+        self.dhi = np.arctan2(cx * ext[:, 1] - cy * ext[:, 0], cx * ext[:, 0] + cy * ext[:, 1])   # > 0
+        assert (self.dlo < 0).all() and (self.dhi > 0).all()
+        # pair tables, [target, blocker]
+        tx, ty = cx[:, None], cy[:, None]
+        ce = ent[None, :, 0] * ty - ent[None, :, 1] * tx          # cross(enter_b, t)
+        cxx = tx * ext[None, :, 1] - ty * ext[None, :, 0]         # cross(t, exit_b)
+        de = ent[None, :, 0] * tx + ent[None, :, 1] * ty
+        dx_ = ext[None, :, 0] * tx + ext[None, :, 1] * ty
+        nearer = kr[None, :] < kr[:, None]
+        self.strict = nearer & (ce > 0) & (cxx > 0)
+        self.on_enter = nearer & (ce == 0) & (de > 0)
+        self.on_exit = nearer & (cxx == 0) & (dx_ > 0)
+        bx, by = cx[None, :], cy[None, :]
+        self.D = np.arctan2(bx * ty - by * tx, bx * tx + by * ty)  # signed angle from the blocker's centre to the target's
+        self.mask = (self.strict.astype(np.int8) + 2 * self.on_enter.astype(np.int8) + 3 * self.on_exit.astype(np.int8))
+
+    def corner_elevs(self, a):
+        """(enter, centre, exit) elevation of every cell of the float64 terrain `a`"""
+        flat = a.ravel()
+        own = flat[self.rows * self.w + self.cols]
+
+        def mean4(nb):
+            ok = nb[:, 0] >= 0
+            m = flat[np.where(ok[:, None], nb, 0)].sum(axis=1) / 4.0
+            return np.where(ok, m, own)
+        return mean4(self.ent_nb), own, mean4(self.ext_nb)
+
+    def nodes(self, a, velev):
+        """the status node of every cell from geometry: key, g0 g1 g2, a0 a1 a2 (bearings in [0, 2pi))"""
+        e0, e1, e2 = self.corner_elevs(a)
+        g0 = np.arctan2(e0 - velev, self.dist_e)
+        g1 = np.arctan2(e1 - velev, self.dist_c)
+        g2 = np.arctan2(e2 - velev, self.dist_x)
+        return e0, e1, e2, g0, g1, g2
+
+    def visible(self, a, velev, vt):
+        """per cell: 1 visible, 0 hidden, -1 undetermined (a decisive comparison is tied within GEO_TOL, or hinges
+        on a blocker whose span only touches the bearing)"""
+        e0, e1, e2, g0, g1, g2 = self.nodes(a, velev)
+        gt = np.arctan2(e1 + vt - velev, self.dist_c)
+        D = self.D
+        with np.errstate(invalid="ignore", divide="ignore"):
+            cg = np.where(D < 0, g1[None, :] + (g0 - g1)[None, :] * D / self.dlo[None, :],
+                          g1[None, :] + (g2 - g1)[None, :] * D / self.dhi[None, :])
+        diff = cg - gt[:, None]
+        blocked = (self.strict & (diff > GEO_TOL)).any(axis=1)
+        tied = (self.strict & (np.abs(diff) <= GEO_TOL)).any(axis=1)
+        touch = (self.on_enter & ((g0[None, :] - gt[:, None]) > -GEO_TOL)).any(axis=1) | \
+                (self.on_exit & ((g2[None, :] - gt[:, None]) > -GEO_TOL)).any(axis=1)
+        out = np.where(blocked, 0, np.where(tied | touch, -1, 1))
+        return out, gt
+
+
+def geo_model(h, w, vr, vc, ew, ns):
+    k = (h, w, vr, vc, ew, ns)
+    g = _GEO_CACHE.get(k)
+    if g is None:
+        if len(_GEO_CACHE) > 64:
+            _GEO_CACHE.clear()
+        g = _GEO_CACHE[k] = GeoModel(*k)
+    return g
+
+
+def geo_reference(c):
+    """{(row, col): True | False | None} from the terrain geometry alone (None = undetermined, not compared)"""
+    a, xs, ys, ew, ns, velev, vt = terrain_setup(c)
+    a = a.astype(np.float64)
+    g = geo_model(a.shape[0], a.shape[1], c["vr"], c["vc"], ew, ns)
+    v, _ = g.visible(a, velev, vt)
+    return {rc: (None if v[i] < 0 else bool(v[i])) for i, rc in enumerate(g.cells)}
+
+
+def oracle_nodes(c, ops):
+    """every status node the sweep inserts -- the initial east row and one per entering event -- against the node
+    of that cell computed from geometry alone.  Returns None or a description."""
+    a, xs, ys, ew, ns, velev, vt = terrain_setup(c)
+    a = a.astype(np.float64)
+    vr, vc = c["vr"], c["vc"]
+    g = geo_model(a.shape[0], a.shape[1], vr, vc, ew, ns)
+    e0, e1, e2, g0, g1, g2 = g.nodes(a, velev)
+    seen_initial = set()
+    for op in ops:
+        if op[0] != "ins":
+            continue
+        node, row, col, initial = op[1], op[2], op[3], op[4]
+        i = g.index.get((row, col))
+        if i is None:
+            return f"a status node is inserted for the observer's own cell {(row, col)}"
+        if initial:
+            seen_initial.add((row, col))
+        what = "initial status node" if initial else "status node"
+        if abs(node[0] - g.keys[i]) > 1e-9 * max(1.0, g.keys[i]):
+            return f"{what} of cell {(row, col)}: key {node[0]}, squared distance is {g.keys[i]}"
+        for j, want in enumerate((g0[i], g1[i], g2[i])):
+            if abs(node[1 + j] - want) > 1e-9:
+                return (f"{what} of cell {(row, col)}: gradient {j} is {node[1 + j]}, geometry (corner elevations "
+                        f"{(float(e0[i]), float(e1[i]), float(e2[i]))}) gives {float(want)}")
+        for j, want in enumerate((g.a1[i] + g.dlo[i], g.a1[i], g.a1[i] + g.dhi[i])):
+            dlt = (node[4 + j] - want) % (2 * PI)
+            if min(dlt, 2 * PI - dlt) > 1e-9:
+                return f"{what} of cell {(row, col)}: bearing {j} is {node[4 + j]}, geometry gives {float(want)}"
+        if not (node[4] < node[5] < node[6]):
+            return f"{what} of cell {(row, col)}: bearings not increasing {tuple(node[4:7])}"
+    want_initial = {(vr, j) for j in range(vc + 1, a.shape[1])}
+    if seen_initial != want_initial:
+        return (f"initially active cells {sorted(seen_initial)}; the cells whose span contains bearing 0 are "
+                f"{sorted(want_initial)}")
+    return None
+
+
 def oracle_events(c, ops, ev):
     """L0, independent of the code: every event's corner, bearing and corner elevation, every status node's
     key and gradients, recomputed from the geometry of the statement"""
@@ -634,28 +945,53 @@ def oracle_events(c, ops, ev):
 
 
 def oracle_terrain(c):
-    """returns (None | description, details) -- the property on the public function"""
+    """returns (None | description of a PROPERTY failure of the public function, details).
+    details = (ops, ev, data, ref, pub, notes): `notes` lists internal quantities of the real code (events, status
+    nodes) that differ from the geometry of the statement -- correspondence disagreements, not property failures."""
     a, xs, ys, ew, ns, velev, vt = terrain_setup(c)
     ops, ev, data = sweep_ops(a.astype(np.float64), c["vr"], c["vc"], velev, vt, ew, ns)
+    notes = []
     bad = oracle_events(c, ops, ev)
     if bad:
-        return "event generation: " + bad, None
-    ref = reference_visible(ops)
+        notes.append("event generation: " + bad)
+    bad = oracle_nodes(c, ops)
+    if bad:
+        notes.append("status nodes: " + bad)
     pub, _ = public_viewshed(c)
-    exp = expected_output(c, ref)
-    if pub.shape != exp.shape:
+    # (1) the public function against the O(n^2) evaluation of the line-of-sight model on the terrain geometry
+    geo = geo_reference(c)
+    if pub.shape != a.shape:
         return f"output shape {pub.shape}", None
+    if float(pub[c["vr"], c["vc"]]) != 180.0:
+        return f"the observer's cell holds {float(pub[c['vr'], c['vc']])}, not 180", None
+    for (i, j), vis in geo.items():
+        p = float(pub[i, j])
+        if vis is not None and (p != -1.0) != vis:
+            return (f"cell ({i},{j}) is {'invisible' if p == -1.0 else 'visible'} in viewshed() but "
+                    f"{'visible' if vis else 'invisible'} in the line-of-sight model evaluated on the terrain geometry "
+                    f"(every cell against every nearer cell spanning its bearing)"), None
+    # (2) ... and, bit-exact also where gradients tie, against the O(n^2) list evaluation on the nodes the real helpers built
+    ref = reference_visible(ops)
+    for (i, j), vis in ref.items():
+        if geo[(i, j)] is None:
+            geo[(i, j)] = vis
+    exp = expected_output(c, geo)
     for i in range(exp.shape[0]):
         for j in range(exp.shape[1]):
             p, e = float(pub[i, j]), float(exp[i, j])
             if (p == -1.0) != (e == -1.0):
+                if notes:
+                    # the real helpers' nodes differ from geometry: this is a disagreement of the tie, the verdict on the
+                    # tied cell is not decidable from the statement
+                    notes.append(f"cell ({i},{j}): viewshed() and the list evaluation on the real nodes differ")
+                    continue
                 return (f"cell ({i},{j}) is {'invisible' if p == -1.0 else 'visible'} in viewshed() but "
                         f"{'invisible' if e == -1.0 else 'visible'} in the line-of-sight model"), None
             if abs(p - e) > 1e-9 * 180:
                 return f"cell ({i},{j}) holds {p}, the output rule gives {e}", None
             if p != -1.0 and not (0.0 <= p <= 180.0):
                 return f"cell ({i},{j}) holds {p} outside [0,180]", None
-    return None, (ops, ev, data, ref, pub)
+    return None, (ops, ev, data, ref, pub, notes)
 
 
 # ---------------------------------------------------------------- fast search (numba)
@@ -805,6 +1141,168 @@ def fast():
     return many
 
 
+_FAST_GEO = None
+
+
+def fast_geo():
+    """numba-compiled: random terrains of one geometry; the REAL pipeline (`_init_event_list`, the event order, `data`,
+    `_viewshed_cpu_sweep`, as `_viewshed_cpu` chains them) against the O(n^2) evaluation of the line-of-sight model on the
+    tables of `GeoModel` (nothing of the real code enters the reference)"""
+    global _FAST_GEO
+    if _FAST_GEO is not None:
+        return _FAST_GEO
+    import numba as nb
+    v = V()
+    iel, sweep = v._init_event_list, v._viewshed_cpu_sweep
+    TOL = GEO_TOL
+
+    @nb.njit
+    def geo_visible(a, rows, cols, ent_nb, ext_nb, dist_e, dist_c, dist_x, dlo, dhi, D, mask, velev, vt, out):
+        n = rows.shape[0]
+        w = a.shape[1]
+        flat = a.ravel()
+        g0 = np.empty(n)
+        g1 = np.empty(n)
+        g2 = np.empty(n)
+        gt = np.empty(n)
+        for i in range(n):
+            own = flat[rows[i] * w + cols[i]]
+            e0 = own
+            if ent_nb[i, 0] >= 0:
+                e0 = (flat[ent_nb[i, 0]] + flat[ent_nb[i, 1]] + flat[ent_nb[i, 2]] + flat[ent_nb[i, 3]]) / 4.0
+            e2 = own
+            if ext_nb[i, 0] >= 0:
+                e2 = (flat[ext_nb[i, 0]] + flat[ext_nb[i, 1]] + flat[ext_nb[i, 2]] + flat[ext_nb[i, 3]]) / 4.0
+            g0[i] = np.arctan2(e0 - velev, dist_e[i])
+            g1[i] = np.arctan2(own - velev, dist_c[i])
+            g2[i] = np.arctan2(e2 - velev, dist_x[i])
+            gt[i] = np.arctan2(own + vt - velev, dist_c[i])
+        for t in range(n):
+            verdict = 1
+            for b in range(n):
+                m = mask[t, b]
+                if m == 0:
+                    continue
+                if m == 1:
+                    d = D[t, b]
+                    if d < 0:
+                        cg = g1[b] + (g0[b] - g1[b]) * d / dlo[b]
+                    else:
+                        cg = g1[b] + (g2[b] - g1[b]) * d / dhi[b]
+                    if cg - gt[t] > TOL:
+                        verdict = 0
+                        break
+                    if cg - gt[t] >= -TOL:
+                        verdict = -1
+                elif m == 2:
+                    if g0[b] - gt[t] > -TOL:
+                        verdict = -1
+                else:
+                    if g2[b] - gt[t] > -TOL:
+                        verdict = -1
+            out[t] = verdict
+
+    @nb.njit
+    def one(raster, vr, vc, velev, vt, ew, ns, perm, rows, cols, ent_nb, ext_nb, dist_e, dist_c, dist_x, dlo, dhi, D, mask):
+        n_rows, n_cols = raster.shape
+        data = np.zeros((3, n_cols))
+        vis = np.full(raster.shape, -1.0)
+        nev = 3 * (n_rows * n_cols - 1)
+        ev0 = np.zeros((nev, 7))
+        iel(ev0, raster, vr, vc, data, vis)
+        rcts = np.empty((nev, 3), np.int64)
+        aes = np.empty((nev, 4))
+        for q in range(nev):
+            e = ev0[perm[q]]
+            rcts[q, 0] = int(e[0])
+            rcts[q, 1] = int(e[1])
+            rcts[q, 2] = int(e[2])
+            aes[q] = e[3:]
+        res = sweep(raster, vr, vc, velev, vt, ew, ns, rcts, aes, data, vis)
+        verdict = np.empty(rows.shape[0], np.int64)
+        geo_visible(raster, rows, cols, ent_nb, ext_nb, dist_e, dist_c, dist_x, dlo, dhi, D, mask, velev, vt, verdict)
+        for i in range(rows.shape[0]):
+            if verdict[i] >= 0 and (res[rows[i], cols[i]] != -1.0) != (verdict[i] == 1):
+                return rows[i] * n_cols + cols[i]
+        return -1
+
+    @nb.njit
+    def many(h, w, vr, vc, oe, vt, ew, ns, perm, T, seed, mode, rows, cols, ent_nb, ext_nb, dist_e, dist_c, dist_x, dlo, dhi,
+             D, mask):
+        np.random.seed(seed)
+        for t in range(T):
+            base = float(np.random.randint(3))
+            a = np.full((h, w), base)
+            if mode == 0:
+                for _ in range(1 + np.random.randint(max(2, h * w // 3))):
+                    a[np.random.randint(h), np.random.randint(w)] = base + float(1 + np.random.randint(3))
+            elif mode == 1:
+                for _ in range(1 + np.random.randint(max(2, h * w // 2))):
+                    a[np.random.randint(h), np.random.randint(w)] = base + float(np.random.randint(-2, 5)) / 2.0
+            elif mode == 2:
+                k = 2 + np.random.randint(3)
+                for r_ in range(h):
+                    for c_ in range(w):
+                        a[r_, c_] = float(np.random.randint(k))
+            elif mode == 3:
+                for r_ in range(h):
+                    for c_ in range(w):
+                        a[r_, c_] = float(np.random.randint(64)) / 8.0
+            else:
+                # relief next to the observer's row / column
+                for _ in range(1 + np.random.randint(4)):
+                    if np.random.randint(2) == 0:
+                        r_ = vr + 2 * np.random.randint(2) - 1
+                        c_ = np.random.randint(w)
+                    else:
+                        c_ = vc + 2 * np.random.randint(2) - 1
+                        r_ = np.random.randint(h)
+                    if 0 <= r_ < h and 0 <= c_ < w:
+                        a[r_, c_] = base + float(2 + np.random.randint(12))
+            velev = a[vr, vc] + oe
+            bad = one(a, vr, vc, velev, vt, ew, ns, perm, rows, cols, ent_nb, ext_nb, dist_e, dist_c, dist_x, dlo, dhi, D, mask)
+            if bad >= 0:
+                return bad, a
+        return -1, np.zeros((h, w))
+
+    _FAST_GEO = many
+    return many
+
+
+def fast_geo_search(r, budget_s, maxs, per=100):
+    """random geometries x random terrains, real pipeline vs the geometric reference; a differing cell is confirmed on
+    the public function"""
+    many = fast_geo()
+    t0 = time.time()
+    n = 0
+    while time.time() - t0 < budget_s:
+        h, w = r.rng.randrange(2, maxs + 1), r.rng.randrange(2, maxs + 1)
+        vr, vc = r.rng.randrange(h), r.rng.randrange(w)
+        dx, dy = r.rng.choice([(1.0, 1.0), (1.0, 1.0), (2.0, 0.5), (2.0, 1.0), (1.0, 0.5)])
+        oe = r.rng.choice([0.0, 1.0, 1.0, -1.0, 5.0, 0.5])
+        te = r.rng.choice([0.0, 0.0, 2.0, 0.5])
+        perm = geometry_perm(h, w, vr, vc)
+        g = geo_model(h, w, vr, vc, dx, dy)
+        for mode in (0, 1, 2, 3, 4, 4):
+            try:
+                bad, a = many(h, w, vr, vc, oe, te, dx, dy, perm, per, r.rng.randrange(1 << 30), mode, g.rows, g.cols,
+                              g.ent_nb, g.ext_nb, g.dist_e, g.dist_c, g.dist_x, g.dlo, g.dhi, g.D, g.mask)
+            except Exception as ex:   # the real sweep raised inside the compiled search
+                bad, a = 0, np.zeros((h, w))
+                r.extra.setdefault("notes", []).append(f"fast geometric search: real code raised {type(ex).__name__}: {ex}")
+            n += per
+            if bad >= 0:
+                c = dict(kind=f"fastgeo{mode}", dtype="float64", a=a.tolist(), vr=vr, vc=vc, oe=oe, te=te, dx=dx, dy=dy,
+                         x0=0.0, y0=0.0, off=0.0)
+                why = safe_oracle(c)
+                if why:
+                    r.fail("visibility", why, c)
+                    return n
+                r.extra.setdefault("notes", []).append("fast geometric search: a candidate was not confirmed on viewshed(): "
+                                                       + json.dumps(c)[:300])
+    return n
+
+
 def geometry_perm(h, w, vr, vc):
     v = V()
     a = np.zeros((h, w))
@@ -888,6 +1386,7 @@ def seam123(r, n_terr, maxs, tree_level_every):
     """terrains: seam 3 (public) vs seam 2 (real sweep, real tree ops, L1 list model, L2 tree model), and
     seam 1 on the sweep-derived operation sequence of some of them"""
     requests, meta = [], []
+    e_requests, e_meta = [], []
     t_requests, t_expect = [], []
     nrot = 0
     for s in range(n_terr):
@@ -907,7 +1406,9 @@ def seam123(r, n_terr, maxs, tree_level_every):
         if why:
             r.fail("visibility", why, c)
             continue
-        ops, ev, data, ref, pub = det
+        ops, ev, data, ref, pub, notes = det
+        for note in notes:
+            r.disagree("L0-geometry-vs-real-internals", dict(stream="terrain", terrain=c), "real " + note, "geometry of the statement")
         a, xs, ys, ew, ns, velev, vt = terrain_setup(c)
         a64 = a.astype(np.float64)
         rs = real_sweep(a64, c["vr"], c["vc"], velev, vt, ew, ns, ev, data)
@@ -922,11 +1423,25 @@ def seam123(r, n_terr, maxs, tree_level_every):
         r.tag("cells:invisible", len(ref) - sum(ref.values()))
         requests.append("vs_sweep ops=" + ops_tok(ops))
         meta.append((c, "".join("1" if ref[(op[4], op[5])] else "0" for op in ops if op[0] == "qry")))
+        rec = None
+        if s % tree_level_every == 0 and len(ops) <= 700:
+            rec, out_py = instrumented_sweep(a64, c["vr"], c["vc"], velev, vt, ew, ns, ev, data)
+            if not np.array_equal(out_py, pub):
+                r.disagree("seam0-interpreted-sweep", c, "viewshed() output", "the interpreted source of the sweep differs")
+            r.tag("seam0:real-sweep-operations-recorded", len(rec))
+        e_requests.append(events_request(a64, c["vr"], c["vc"], ew, ns))
+        e_meta.append((c, ops, ev, data, rec))
         if s % tree_level_every == 0 and len(ops) <= 700:
             tops = [(op[0], op[1]) if op[0] != "qry" else ("qry", op[1], op[2], op[3]) for op in ops]
             nrot += run_tree_sequence(r, tops, dict(stream="tree-sweep", terrain=c), "tree-sweep", t_requests, t_expect,
                                       size=a.shape[1] - c["vc"] + a.size + 10)
             r.tag("seam1:sweep-derived-sequences")
+    for (c, ops, ev, data, rec), rep in zip(e_meta, Driver().ask(e_requests)):
+        diffs = compare_events(c, ops, ev, data, rep, rec)
+        for d in diffs[:3]:
+            r.disagree("seam0-event-geometry", dict(stream="terrain", terrain=c), "real " + d, "Model/ViewshedEvents.lean (exact)")
+        r.tag("seam0:event-lists-compared-exactly")
+        r.tag("seam0:events", len(ev))
     replies = Driver().ask(requests)
     for (c, want), rep in zip(meta, replies):
         f = dict(p.split("=", 1) for p in rep.split(" ") if "=" in p)
@@ -983,6 +1498,8 @@ def run_corpus(r):
             r.fail(body.get("key", "visibility"), why, c)
             continue
         ops = det[0]
+        for note in det[5]:
+            r.disagree("L0-geometry-vs-real-internals", dict(stream="corpus", terrain=c), "real " + note, "geometry of the statement")
         if len(ops) <= 900:
             a = np.array(c["a"])
             tops = [(op[0], op[1]) if op[0] != "qry" else ("qry", op[1], op[2], op[3]) for op in ops]
@@ -999,14 +1516,17 @@ def run_corpus(r):
 
 def run(r):
     V()
-    r.rule = ("terrains 2x2..15x15 (thorough 30x30) over small alphabets / plane+bumps / plateaus / dyadics / ints / flat, "
+    r.rule = ("terrains 2x2..15x15 (thorough 30x30) over small alphabets / plane+bumps / plateaus / dyadics / ints / flat / "
+              "row-relief (tall cells in the lines adjacent to one of the observer's four axis rays), "
               "dtypes f8 f4 i4 i8, every observer cell incl. corners and edges, observer_elev in {-1,0,1,5}, target_elev in "
               "{0,2}, square and non-square cells, observer given off-centre; tree sequences: pools 6/12/40 of distinct "
               "keys, gradients from alphabets of 2/3/5 values (ties) or dyadics, queries at bearings all nodes span; "
               "non-trivial = not a flat terrain / any tree sequence")
     r.trusted += ["numba compilation of viewshed.py == its interpreted source (checked per tree operation)",
                   "float: IEEE + - * / and comparisons agree between numba and Lean `Float`"]
-    r.assumptions += ["angles and gradients (atan, sqrt) are taken from the real helper functions, never recomputed",
+    r.assumptions += ["seams 1-2 take angles and gradients (atan, sqrt) from the real helper functions; the end-to-end oracle "
+                      "recomputes every cell's node from the terrain geometry (atan2, exact cross products) and skips a cell "
+                      "only when a decisive comparison is tied within 1e-9 or hinges on a span that merely touches the bearing",
                       "`Inv holds in every reachable state` is checked on the generated runs, not proved for deletion (see design_notes/C05.md)"]
     quick = r.tier == "quick"
     run_corpus(r)
@@ -1014,8 +1534,11 @@ def run(r):
     seam123(r, n_terr=60 if quick else 1000, maxs=9 if quick else 15, tree_level_every=6 if quick else 10)
     if not quick:
         seam123(r, n_terr=20, maxs=30, tree_level_every=100)
-    n = fast_search(r, 20 if quick else 420, 10 if quick else 16)
+    n = fast_search(r, 12 if quick else 300, 10 if quick else 16)
     r.tag("fast-reference-terrains", n)
+    if not r.failures:
+        n = fast_geo_search(r, 14 if quick else 300, 10 if quick else 16)
+        r.tag("fast-geometric-reference-terrains", n)
 
 
 def search(r):
@@ -1028,8 +1551,11 @@ def search(r):
             if why:
                 r.fail("visibility", why, c)
                 return
-    n = fast_search(r, 60 if r.tier == "quick" else 600, 12 if r.tier == "quick" else 18, per=300)
-    r.tag("search:fast-reference-terrains", n)
+    n = fast_geo_search(r, 40 if r.tier == "quick" else 400, 12 if r.tier == "quick" else 18, per=200)
+    r.tag("search:fast-geometric-reference-terrains", n)
+    if not r.failures:
+        n = fast_search(r, 40 if r.tier == "quick" else 400, 12 if r.tier == "quick" else 18, per=300)
+        r.tag("search:fast-reference-terrains", n)
     if not r.failures:
         rng = r.rng
         for _ in range(150 if r.tier == "quick" else 1500):
